@@ -142,7 +142,11 @@ func verifLiveGoroutines() int {
 }
 
 // verifQuiesce waits until all other goroutines are finished or blocked.
-func verifQuiesce() { verifNativeSleep(); verifNativeSleep() }
+func verifQuiesce() {
+	for i := 0; i < 10; i++ {
+		verifNativeSleep()
+	}
+}
 
 // verifOnUnwind(1): paths that exceed the unwinding bound are cut silently
 // (unfair schedules of a polling loop). verifWedgeAtUnwind: such a path is a
